@@ -54,7 +54,7 @@ def main():
     meta = {'property': a.pid, 'source': f'{a.src} change {a.k}', 'confirmed': False, 'ran': []}
     d = scratch()
     clean = scratch()
-    env = dict(os.environ, PYTHONDONTWRITEBYTECODE='1')
+    env = dict(os.environ, PYTHONDONTWRITEBYTECODE='1', OMP_NUM_THREADS='2', OPENBLAS_NUM_THREADS='2')
     try:
         rc, out = sh(f'git apply --whitespace=nowarn {patch} 2>&1 || patch -p1 < {patch}', cwd=d)
         meta['ran'].append(f'apply patch to scratch copy of /repo HEAD: rc={rc}')
